@@ -305,6 +305,7 @@ func Close[T any](ch chan<- T) {
 	cid := uintptr(*(*unsafe.Pointer)(unsafe.Pointer(&ch)))
 	close(ch) // panics exactly as Go does for nil / closed channels
 	s.closed[cid] = true
+	s.closedRefs = append(s.closedRefs, ch)
 	s.acc(t, cid, true)
 }
 
